@@ -625,6 +625,21 @@ def stepC16 (ts : List String) : String :=
       | _, _ => "bad-op"
   | _ => "bad-op"
 
+/-- `C20 prefixes <filehex> <hdrlen>`: check every truncation (all cuts for small files, a stride otherwise) -/
+def stepC20 (ts : List String) : String :=
+  match ts with
+  | ["prefixes", fh, hl] =>
+    match unhex fh, hl.toNat? with
+    | some file, some hl =>
+      let n := file.length
+      let stride := if n - hl ≤ 160 then 1 else (n - hl) / 80
+      let cuts := ((List.range ((n - hl) / stride + 1)).map (fun i => hl + i * stride)) ++ [n]
+      match cuts.find? (fun L => !(Writer.truncationOk file hl L)) with
+      | none => s!"ok {cuts.length}"
+      | some L => s!"fail cut {L}"
+    | _, _ => "bad-op"
+  | _ => "bad-op"
+
 def step (line : String) : String :=
   match (line.trimAscii.toString.splitOn " ").filter (· ≠ "") with
   | "C03" :: rest => stepC03 rest
@@ -642,6 +657,7 @@ def step (line : String) : String :=
   | "C14" :: rest => stepC14 rest
   | "C15" :: rest => stepC15 rest
   | "C16" :: rest => stepC16 rest
+  | "C20" :: rest => stepC20 rest
   | "C04" :: rest => stepC04 rest
   | "C10" :: rest => stepC10 rest
   | _ => "bad-op"
